@@ -34,6 +34,19 @@ def firstDiff : List (Term Sub) → List (Term Sub) → String
         ",".intercalate (a.term.blocks.map (·.tid.id)) ++ "/" ++ ",".intercalate (b.term.blocks.map (·.tid.id))
   | _, _ => "number-of-subs"
 
+/-- name of the first `TidDiscipline` clause the raw program violates -/
+def disciplineFailure (progTid : Tid) (p : Program) : String :=
+  if dupSubPanic [progTid] p.subs then "hyp-dup-sub-tid"
+  else if ¬ EntryFresh [progTid] p.subs then "hyp-entry-not-first"
+  else if ¬ (Tid.artificialSinkSub ∉ progTid :: allTids p ∧ Tid.artificialSinkBlock "" ∉ progTid :: allTids p) then
+    "hyp-sink-tid-used"
+  else if ¬ (∀ s ∈ p.subs, ∀ b ∈ s.term.blocks, ∀ t ∈ succTids b, t ∉ baseSubs p ∧ t ∉ externTids p) then
+    "hyp-jump-to-sub-or-extern"
+  else if ¬ (∀ s ∈ p.subs, ∀ b ∈ s.term.blocks, ∀ t ∈ callTargets b, t ∉ blockTids p ∧ t ≠ Tid.artificialSinkBlock "") then
+    "hyp-call-to-block"
+  else if ¬ (∀ s ∈ baseSubs p, ∀ s' ∈ baseSubs p, s.id = s'.id → s = s') then "hyp-sub-id-twice"
+  else "hyp-suffix-collision"
+
 def handleE (line : String) : Except String String := do
   let j ← Json.parse line
   let ptid ← parseTid (← field j "ptid")
@@ -42,7 +55,7 @@ def handleE (line : String) : Except String String := do
   let implPanic := (strF impl "panic").toOption
   let cfg ← strF impl "cfg"
   let hyp := decide (TidDiscipline ptid p)
-  let tag := if hyp then "constrained" else "modelonly"
+  let tag := if hyp then "constrained" else "modelonly " ++ disciplineFailure ptid p
   let mPanic := normalizePanics ptid p
   match implPanic with
   | some msg =>
